@@ -16,6 +16,8 @@ open StructCodec C11
 inductive CVal (A : Type) where
   /-- planes / vertexes / cubemaps: the records -/
   | recs (r : List (List Val))
+  /-- textures: the names -/
+  | names (n : List Bytes)
   /-- visibility: `None` (VVIS has not run) or the PVS / PAS rows -/
   | vis (v : Option (List Bytes × List Bytes))
   /-- the parser raised -/
@@ -174,8 +176,48 @@ def visSpec : Spec A where
       | .error _ => none)
     | _ => none
 
-/-- views of `Gen.Bsp.tables` with a concrete codec: cubemaps (4), visibility (11), vertexes (12), planes (14). -/
+/-- `struct.unpack('<Ni', table)`: the offsets of the texture-name table. -/
+def offsRead : Nat → Bytes → List Nat
+  | 0, _ => []
+  | k + 1, bs => if bs.length < 4 then [] else (unpackInt 4 true (bs.take 4)).toNat :: offsRead k (bs.drop 4)
+
+theorem offsRead_offsTable (offs : List Nat) (tbl : Bytes) (fuel : Nat) (h : offsTable offs = .ok tbl)
+    (hf : offs.length ≤ fuel) : offsRead fuel tbl = offs := by
+  induction offs generalizing tbl fuel with
+  | nil =>
+    simp [offsTable, catOk] at h; subst h
+    cases fuel <;> simp [offsRead]
+  | cons o os ih =>
+    unfold offsTable at h
+    simp only [List.map_cons] at h
+    obtain ⟨b, r, hb, hr, ht⟩ := catOk_cons_ok h
+    obtain ⟨hl, hu⟩ := pack32_spec hb
+    subst ht
+    cases fuel with
+    | zero => simp at hf
+    | succ k =>
+      have h4 : ¬ (b ++ r).length < 4 := by simp [hl]
+      have htake : (b ++ r).take 4 = b := by rw [← hl]; simp
+      have hdrop : (b ++ r).drop 4 = r := by rw [← hl]; simp
+      simp only [offsRead, h4, if_false, htake, hdrop, hu]
+      rw [ih r k hr (by simpa using hf)]
+      simp
+/-- `_lmp_read_textures` / `_lmp_write_textures`: TEXDATA_STRING_DATA (43) + TEXDATA_STRING_TABLE (44). -/
+def texSpec : Spec A where
+  dec := fun raw => match texRead Gen.Bspfmt.textureReadLimit (raw 43) (offsRead (raw 44).length (raw 44)) with
+    | .ok ns => .names ns
+    | .error _ => .bad
+  enc := fun x => match x with
+    | .names ns => (match texWrite Gen.Bspfmt.textureWriteLimit ns with
+      | .ok (data, offs) => (match offsTable offs with
+        | .ok tbl => some fun l => if l = 43 then data else tbl
+        | .error _ => none)
+      | .error _ => none)
+    | _ => none
+
+/-- views of `Gen.Bsp.tables` with a concrete codec: textures (2), cubemaps (4), visibility (11), vertexes (12), planes (14). -/
 def specOf : Nat → Option (Spec A)
+  | 2 => some texSpec
   | 4 => some (flatSpec 42 cubemapFmt)
   | 11 => some visSpec
   | 12 => some (flatSpec 3 vertexFmt)
@@ -186,14 +228,19 @@ def specOf : Nat → Option (Spec A)
 theorem spec_lumps :
     (Gen.Bsp.tables.view 4).clears = [42] ∧ (Gen.Bsp.tables.view 11).clears = [4] ∧
     (Gen.Bsp.tables.view 12).clears = [3] ∧ (Gen.Bsp.tables.view 14).clears = [1] ∧
+    ((Gen.Bsp.tables.view 2).clears = [43, 44] ∧ (Gen.Bsp.tables.view 2).name = "textures") ∧
     (Gen.Bsp.tables.view 4).name = "cubemaps" ∧ (Gen.Bsp.tables.view 11).name = "visibility" ∧
     (Gen.Bsp.tables.view 12).name = "vertexes" ∧ (Gen.Bsp.tables.view 14).name = "planes" := by decide +kernel
 
 theorem spec_frame : SpecFrame (A := A) Gen.Bsp.tables specOf := by
-  obtain ⟨h4, h11, h12, h14, _⟩ := spec_lumps
+  obtain ⟨h4, h11, h12, h14, ⟨h2, _⟩, _⟩ := spec_lumps
   intro v S hsp raw raw' hr
   unfold specOf at hsp
   split at hsp
+  · injection hsp with hsp; subst hsp
+    have a := hr 43 (by rw [h2]; simp)
+    have b := hr 44 (by rw [h2]; simp)
+    simp [texSpec, a, b]
   · injection hsp with hsp; subst hsp
     have := hr 42 (by rw [h4]; simp)
     simp [flatSpec, this]
@@ -222,6 +269,8 @@ structure FileOK (raw₀ : Nat → Bytes) : Prop where
     recs.all planeTypeOk = true
   vertexes : ∃ recs, recsWrite vertexFmt recs = .ok (raw₀ 3) ∧ (∀ r ∈ recs, canonical vertexFmt r = true)
   cubemaps : ∃ recs, recsWrite cubemapFmt recs = .ok (raw₀ 42) ∧ (∀ r ∈ recs, canonical cubemapFmt r = true)
+  textures : ∃ names offs, (∀ n ∈ names, n.length < Gen.Bspfmt.textureWriteLimit ∧ (0 : UInt8) ∉ n) ∧
+    texWrite Gen.Bspfmt.textureWriteLimit names = .ok (raw₀ 43, offs) ∧ offsTable offs = .ok (raw₀ 44)
   visibility : raw₀ 4 = [] ∨ (raw₀ 4 ≠ [] ∧ ∃ pvs pas, visWrite pvs pas = .ok (raw₀ 4) ∧
     (∀ r ∈ pvs, r.length = (pvs.length + 7) / 8) ∧ (∀ r ∈ pas, r.length = (pvs.length + 7) / 8))
 
@@ -235,11 +284,35 @@ theorem flat_good (p : Gen.Bspfmt.Pair) (hp : p ∈ Gen.Bspfmt.pairs) (fmt : Fmt
   have := C11_flat_lump p hp fmt fmt hr hw hne hs recs b h hc
   simp [flatSpec, hraw, this]
 
+theorem offsTable_length (offs : List Nat) (tbl : Bytes) (h : offsTable offs = .ok tbl) : tbl.length = 4 * offs.length := by
+  induction offs generalizing tbl with
+  | nil => simp [offsTable, catOk] at h; subst h; rfl
+  | cons o os ih =>
+    unfold offsTable at h
+    simp only [List.map_cons] at h
+    obtain ⟨b, r, hb, hr, ht⟩ := catOk_cons_ok h
+    have := ih r hr
+    subst ht
+    simp [(pack32_spec hb).1, this]; omega
+
+theorem tex_read_of_file (raw₀ : Nat → Bytes) (names : List Bytes) (offs : List Nat)
+    (hn : ∀ n ∈ names, n.length < Gen.Bspfmt.textureWriteLimit ∧ (0 : UInt8) ∉ n)
+    (hwr : texWrite Gen.Bspfmt.textureWriteLimit names = .ok (raw₀ 43, offs)) (htb : offsTable offs = .ok (raw₀ 44)) :
+    texRead Gen.Bspfmt.textureReadLimit (raw₀ 43) (offsRead (raw₀ 44).length (raw₀ 44)) = .ok names := by
+  obtain ⟨data, offs', h1, h2⟩ := (C11_textures names).1 hn
+  rw [hwr] at h1
+  injection h1 with h1
+  injection h1 with hd ho
+  subst hd; subst ho
+  have hlen : offs.length ≤ (raw₀ 44).length := by rw [offsTable_length offs _ htb]; omega
+  rw [offsRead_offsTable offs (raw₀ 44) _ htb hlen]
+  exact h2
+
 /-- the parse of a file that is `FileOK` satisfies `SpecGood` — from `C11_planes`, `C11_flat_lump`, `C11_visibility`. -/
 theorem spec_good (Ca : Codec Bytes (CVal A)) (raw₀ : Nat → Bytes) (E : Nat → CVal A) (hf : FileOK raw₀)
     (hE : IsEnv Gen.Bsp.tables (concrete Gen.Bsp.tables specOf Ca) raw₀ E) :
     SpecGood Gen.Bsp.tables specOf E := by
-  obtain ⟨h4, h11, h12, h14, _⟩ := spec_lumps
+  obtain ⟨h4, h11, h12, h14, ⟨h2, _⟩, _⟩ := spec_lumps
   obtain ⟨okp, okv, okc, sp, sv, sc⟩ := formats_ok
   obtain ⟨pv, pvm, wv, wv', nv⟩ := pair_of_ok _ _ okv
   obtain ⟨pc, pcm, wc, wc', nc⟩ := pair_of_ok _ _ okc
@@ -247,6 +320,21 @@ theorem spec_good (Ca : Codec Bytes (CVal A)) (raw₀ : Nat → Bytes) (E : Nat 
   intro v S hsp
   unfold specOf at hsp
   split at hsp
+  · -- textures
+    injection hsp with hsp; subst hsp
+    obtain ⟨names, offs, hn', hwr, htb⟩ := hf.textures
+    have hrd := tex_read_of_file raw₀ names offs hn' hwr htb
+    have he : E 2 = .names names := by
+      have := hE 2 (by rw [hn]; decide)
+      simp only [concrete, specOf] at this
+      rw [← this]; simp [texSpec, hrd]
+    rw [he]
+    refine ⟨fun l => if l = 43 then raw₀ 43 else raw₀ 44, by simp [texSpec, hwr, htb], fun raw hraw => ?_⟩
+    have a := hraw 43 (by rw [h2]; simp)
+    have b := hraw 44 (by rw [h2]; simp)
+    simp only [if_true] at a
+    simp only [show (44 : Nat) ≠ 43 by decide, if_false] at b
+    simp [texSpec, a, b, hrd]
   · -- cubemaps
     injection hsp with hsp; subst hsp
     obtain ⟨recs, hwr, hc⟩ := hf.cubemaps
